@@ -63,9 +63,16 @@ def check(chk: Check) -> None:
             if p.normal and not other_lexers:
                 loop.append('a path finishes without asking the lexer for a token')
             continue
-        tk = freeze(toks[0].result)
-        if not toks[0].in_ctx('loop'):
-            loop.append('the token request is not inside a loop')
+        # `while (t := lex.token()) is not None:` evaluates its test once before the loop and once per iteration: the
+        # request that belongs to the iteration is the one inside the loop
+        tk_ev = next((e for e in reversed(toks) if e.in_ctx('loop')), toks[0])
+        tk = freeze(tk_ev.result)
+        if not tk_ev.in_ctx('loop'):
+            if p.normal and any(e.kind == 'yield' for e in p.events):
+                loop.append('the token request is not inside a loop')
+            elif p.normal and not any(c == ('cmp', 'is', tk, ('const', None)) and v or (c == tk and not v) for c, v, _ in p.assumptions) \
+                    and not any(e.kind == 'loop_test' or (e.kind == 'loop_skip' and om.mentions(freeze(e.d.get('cond')), tk)) for e in p.events):
+                loop.append('the token request is not inside a loop')
         ttype, tval = ('attr', tk, 'type'), ('attr', tk, 'value')
         assumed = [(c, v) for c, v, _ in p.assumptions]
         is_none = [v for c, v in assumed if c == ('cmp', 'is', tk, ('const', None))] + \
